@@ -199,6 +199,12 @@ class Lemma:
             states = []
         from .state import Obligation
         import z3 as _z3
+        # source-reading lemmas list what they read (function targets) in build.reads
+        for t in getattr(self.build, "reads", []) or []:
+            try:
+                res.functions[t] = extract.extract(t)
+            except extract.ExtractError as e:
+                res.unsupported.append("extraction failed: %s" % e)
         for st in states:
             if st.obligations:
                 # vacuity guard: the hypotheses of this case must not be contradictory
